@@ -577,16 +577,92 @@ func mustPaths(fn *ssa.Function, b *ssa.BasicBlock) []an.Path {
 	return out
 }
 
-// outboundHandlers: mergeHandlerSession methods with an unchecked assertion
-// of msg.Msg to a server message type → that type.
-func outboundHandlers(c *core.Ctx) map[string]*ssa.Function {
-	out := map[string]*ssa.Function{}
-	for _, fn := range sessionFuncs(c) {
-		an.Instrs(fn, func(in ssa.Instruction) {
-			if ta, ok := in.(*ssa.TypeAssert); ok && !ta.CommaOk && strings.HasSuffix(an.PathOf(ta.X), ".Msg") {
-				out[typeNameOf(ta.AssertedType)] = fn
+// outHandler: the mergeHandlerSession method that treats one type of child
+// reply. msg is the typed message inside it — its *ServerXMsg parameter, or
+// the unchecked assertion of the envelope's .Msg — and idx the access path of
+// the child's index (envelope.Idx, or an int parameter fed with it).
+type outHandler struct {
+	fn  *ssa.Function
+	msg ssa.Value
+	idx string
+}
+
+// outboundInfo finds the handlers through the dispatcher: the session method
+// that tells the reply types apart (type switch / comma-ok assertions on the
+// envelope's .Msg) and calls one session method per type.
+func outboundInfo(c *core.Ctx) (disp *ssa.Function, hs map[string]*outHandler) {
+	hs = map[string]*outHandler{}
+	sess := sessionFuncs(c)
+	isSess := map[*ssa.Function]bool{}
+	for _, f := range sess {
+		isSess[f] = true
+	}
+	best := 0
+	for _, fn := range sess {
+		if fn.Parent() != nil {
+			continue
+		}
+		found := map[string]*outHandler{}
+		for _, ci := range calls(fn) {
+			call, ok := ci.(*ssa.Call)
+			if !ok {
+				continue
 			}
-		})
+			h := an.StaticCallee(&call.Call)
+			if h == nil || !isSess[h] || h == fn {
+				continue
+			}
+			for _, g := range an.Guards(fn, call.Block()) {
+				ex, ok := g.V.(*ssa.Extract)
+				if !ok || !g.True || ex.Index != 1 {
+					continue
+				}
+				ta, ok := ex.Tuple.(*ssa.TypeAssert)
+				if !ok || !strings.HasSuffix(an.PathOf(ta.X), ".Msg") {
+					continue
+				}
+				t := typeNameOf(ta.AssertedType)
+				if !strings.HasPrefix(t, "Server") {
+					continue
+				}
+				oh := &outHandler{fn: h}
+				// typed parameter, or unchecked assertion inside the handler
+				for i, p := range h.Params {
+					if typeNameOf(p.Type()) == t {
+						oh.msg = p
+					}
+					if bt, isB := p.Type().Underlying().(*types.Basic); isB && bt.Info()&types.IsInteger != 0 && i < len(call.Call.Args) && strings.HasSuffix(an.PathOf(call.Call.Args[i]), ".Idx") {
+						oh.idx = "p:" + p.Name()
+					}
+					if strings.HasSuffix(typeNameOf(p.Type()), "SendMsg") {
+						oh.idx = "p:" + p.Name() + ".Idx"
+					}
+				}
+				if oh.msg == nil {
+					an.Instrs(h, func(in ssa.Instruction) {
+						if ta2, ok := in.(*ssa.TypeAssert); ok && !ta2.CommaOk && typeNameOf(ta2.AssertedType) == t && strings.HasSuffix(an.PathOf(ta2.X), ".Msg") {
+							oh.msg = ta2
+						}
+					})
+				}
+				if oh.msg != nil {
+					found[t] = oh
+				}
+			}
+		}
+		if len(found) > best {
+			best, disp, hs = len(found), fn, found
+		}
+	}
+	return disp, hs
+}
+
+// outboundHandlers: the handler function per reply type.
+func outboundHandlers(c *core.Ctx) map[string]*ssa.Function {
+	_, hs := outboundInfo(c)
+	out := map[string]*ssa.Function{}
+	for t, h := range hs {
+		out[t] = h.fn
 	}
 	return out
 }
@@ -631,13 +707,9 @@ func runEoseGate(c *core.Ctx) {
 		c.Unknown(nil, fname(c, fn), "roles", P.Pos(fn.Pos()), "mark / all-done methods of the REQ state not recognised by effect")
 		return
 	}
-	var m *ssa.TypeAssert
-	an.Instrs(fn, func(in ssa.Instruction) {
-		if ta, ok := in.(*ssa.TypeAssert); ok && !ta.CommaOk {
-			m = ta
-		}
-	})
-	msgP := "p:" + fn.Params[1].Name()
+	_, infos := outboundInfo(c)
+	m := infos["ServerEOSEMsg"].msg
+	idxPath := infos["ServerEOSEMsg"].idx
 	subID := an.PathOf(m) + ".SubscriptionID"
 	ads := callsTo(fn, allDone)
 	mk := callsTo(fn, mark)
@@ -650,7 +722,7 @@ func runEoseGate(c *core.Ctx) {
 				return
 			}
 			ret = rb
-			c.Check(rv[0] == ssa.Value(m), nil, fname(c, fn), "forwarded-value", P.Pos(rb.Instrs[len(rb.Instrs)-1].Pos()), "the forwarded EOSE is the child's own message (its subscription id)", "the forwarded EOSE is not the child's own message")
+			c.Check(rv[0] == m, nil, fname(c, fn), "forwarded-value", P.Pos(rb.Instrs[len(rb.Instrs)-1].Pos()), "the forwarded EOSE is the child's own message (its subscription id)", "the forwarded EOSE is not the child's own message")
 		}
 	}
 	good := ret != nil && len(ads) == 2 && len(mk) == 1
@@ -661,7 +733,7 @@ func runEoseGate(c *core.Ctx) {
 			first, second = second, first
 		}
 		argsOK := an.PathOf(first.Call.Args[1]) == subID && an.PathOf(second.Call.Args[1]) == subID &&
-			an.PathOf(mk[0].Call.Args[1]) == subID && an.PathOf(mk[0].Call.Args[2]) == msgP+".Idx"
+			an.PathOf(mk[0].Call.Args[1]) == subID && an.PathOf(mk[0].Call.Args[2]) == idxPath
 		order := an.InstrDominates(first, mk[0]) && an.InstrDominates(mk[0], second)
 		e1, e2 := false, false
 		for _, g := range an.Guards(fn, ret) {
@@ -687,18 +759,9 @@ func runEoseGate(c *core.Ctx) {
 
 func runDispatch(c *core.Ctx) {
 	P := c.P
+	disp, infos := outboundInfo(c)
 	hs := outboundHandlers(c)
-	var disp *ssa.Function
-	for _, fn := range sessionFuncs(c) {
-		n := 0
-		for _, h := range hs {
-			n += len(callsTo(fn, h))
-		}
-		if n >= 3 {
-			disp = fn
-		}
-	}
-	if disp == nil {
+	if disp == nil || len(hs) < 3 {
 		c.NoAnchor(nil, "merge outbound dispatcher")
 		return
 	}
@@ -734,7 +797,7 @@ func runDispatch(c *core.Ctx) {
 			props = []string{"C09"}
 		}
 		c.CountSites(1)
-		c.Check(good, props, fname(c, disp), "clause["+t+"]", P.Pos(disp.Pos()), h.Name()+" (which asserts *"+t+" unchecked) is called only from the *"+t+" clause", h.Name()+" asserts *"+t+" without check but is not called exclusively from the clause that established that type: a panic kills the session")
+		c.Check(good, props, fname(c, disp), "clause["+t+"]", P.Pos(disp.Pos()), h.Name()+" (which takes the reply as *"+t+") is called only from the *"+t+" clause", h.Name()+" takes the reply as *"+t+" but is not called exclusively from the clause that established that type: a panic kills the session")
 	}
 	// default clause forwards the child's message unchanged
 	okDef := false
@@ -746,17 +809,12 @@ func runDispatch(c *core.Ctx) {
 	c.Check(okDef, []string{"C08"}, fname(c, disp), "clause[default]", P.Pos(disp.Pos()), "other messages (CLOSED, NOTICE, AUTH) are forwarded unchanged", "messages of other types are not forwarded unchanged")
 	// the post-EOSE / event handler returns the child's own message
 	if h := hs["ServerEventMsg"]; h != nil {
-		var m *ssa.TypeAssert
-		an.Instrs(h, func(in ssa.Instruction) {
-			if ta, ok := in.(*ssa.TypeAssert); ok && !ta.CommaOk {
-				m = ta
-			}
-		})
+		m := infos["ServerEventMsg"].msg
 		good := false
 		for _, rb := range an.ReturnBlocks(h) {
 			rv := an.ReturnValues(an.LastInstr(rb).(*ssa.Return))
 			if !an.IsNilConst(rv[0]) {
-				good = rv[0] == ssa.Value(m)
+				good = rv[0] == m
 			}
 		}
 		c.Check(good, []string{"C08"}, fname(c, h), "forwarded-value", P.Pos(h.Pos()), "a forwarded event message is the child's own (its subscription id and event)", "the forwarded event message is not the child's own message")
@@ -773,12 +831,8 @@ func runSlotRelease(c *core.Ctx) {
 			continue
 		}
 		c.CountFuncs(1)
-		var m *ssa.TypeAssert
-		an.Instrs(fn, func(in ssa.Instruction) {
-			if ta, ok := in.(*ssa.TypeAssert); ok && !ta.CommaOk {
-				m = ta
-			}
-		})
+		_, infos := outboundInfo(c)
+		m := infos[row.typ].msg
 		id := an.PathOf(m) + "." + row.idField
 		// the releasing call: a state method that deletes from the state's map by its parameter
 		var rel *ssa.Call
@@ -1019,11 +1073,39 @@ func runOkAgg(c *core.Ctx) {
 	t, _, n, ok := an.NoSubject().FuncBoolMeaning(ready, 0, nil, nil)
 	_ = t
 	contains := false
+	forced, forcedWhy := false, "no test for a missing reply"
 	an.Region(ready, nil, func(o an.Occ) {
-		if call, isCall := o.In.(*ssa.Call); isCall && strings.HasPrefix(an.CalleeName(&call.Call), "slices.Contains") && an.IsNilConst(an.Unwrap(o.Resolve(call.Call.Args[1]))) {
-			contains = true
+		call, isCall := o.In.(*ssa.Call)
+		if !isCall || !strings.HasPrefix(an.CalleeName(&call.Call), "slices.Contains") || len(call.Call.Args) != 2 || !an.IsNilConst(an.Unwrap(o.Resolve(call.Call.Args[1]))) {
+			return
+		}
+		contains = true
+		// a missing reply (Contains(…, nil) = true) forces "not ready", through every helper level
+		forced, forcedWhy = impliesResult(c, call.Parent(), call, true)
+		for i := len(o.Chain) - 1; i >= 0 && forced; i-- {
+			forced, forcedWhy = impliesFalse(c, o.Chain[i].Parent(), o.Chain[i])
+		}
+		// … and "ready" is never answered without having made that test
+		sites := append([]ssa.Instruction{call}, nil...)
+		for _, ch := range o.Chain {
+			sites = append(sites, ch)
+		}
+		for _, site := range sites {
+			if !forced {
+				break
+			}
+			tps, okp := an.ResultPaths(site.Parent(), 0, true)
+			if !okp {
+				forced, forcedWhy = false, "too many paths"
+				break
+			}
+			for _, tp := range tps {
+				if !tp.Visits(site.Block()) {
+					forced, forcedWhy = false, "a path answers 'ready' without testing for a missing reply ("+P.Pos(an.LastInstr(tp.Path[len(tp.Path)-1]).Pos())+")"
+				}
+			}
 		}
 	})
 	c.CountPaths(n)
-	c.Check(ok && contains, nil, fname(c, ready), "ready", P.Pos(ready.Pos()), "Ready ⇔ the slot exists and holds a reply of every child (no nil entry)", "Ready does not require a reply of every child: the aggregate is sent before all children answered")
+	c.Check(ok && contains && forced, nil, fname(c, ready), "ready", P.Pos(ready.Pos()), "Ready ⇒ the slot exists and holds a reply of every child (a nil entry forces 'not ready')", "Ready does not require a reply of every child ("+forcedWhy+"): the aggregate is sent before all children answered")
 }
